@@ -20,14 +20,14 @@ type Val struct {
 type addrKind int
 
 const (
-	akCell   addrKind = iota // local cell (possibly a struct field path inside it)
-	akField                  // leaf field of a heap object: Comp[Ref]
-	akBox                    // heap-allocated scalar: Comp[Ref]
-	akObj                    // a heap struct object as a whole (pointer to struct)
-	akElem                   // element of a backing array: Arr.S[arr][idx] (+ path)
-	akGlobal                 // package-level variable: component G.x
-	akBytesCell              // slice over a local byte array cell (value semantics)
-	akDyn                    // pointer to a leaf of statically unknown provenance
+	akCell      addrKind = iota // local cell (possibly a struct field path inside it)
+	akField                     // leaf field of a heap object: Comp[Ref]
+	akBox                       // heap-allocated scalar: Comp[Ref]
+	akObj                       // a heap struct object as a whole (pointer to struct)
+	akElem                      // element of a backing array: Arr.S[arr][idx] (+ path)
+	akGlobal                    // package-level variable: component G.x
+	akBytesCell                 // slice over a local byte array cell (value semantics)
+	akDyn                       // pointer to a leaf of statically unknown provenance
 )
 
 // Addr is a generation-time description of an address.
@@ -74,77 +74,80 @@ func (s *State) clone() *State {
 
 // Obligation is one proof obligation.
 type Obligation struct {
-	Func   string
-	Kind   string
-	Label  string
-	Name   string
-	Tags   []string
-	Pos    int    // byte offset into the function script: everything before is the prefix
-	At     string // Bool term: control reaches the obligation point
-	Goal   string // Bool term to prove
-	Cover  bool   // must be satisfiable (vacuity guard) instead of valid
+	Func      string
+	Kind      string
+	Label     string
+	Name      string
+	Tags      []string
+	Pos       int    // byte offset into the function script: everything before is the prefix
+	Block     int    // index of the basic block the obligation sits in (-1: before the body)
+	At        string // Bool term: control reaches the obligation point
+	Goal      string // Bool term to prove
+	Cover     bool   // must be satisfiable (vacuity guard) instead of valid
 	LongCover bool
-	Src    string
-	Result *SolveResult
-	script *strings.Builder
+	Src       string
+	Result    *SolveResult
+	script    *strings.Builder
 }
 
 // FnEnc encodes one function.
 type FnEnc struct {
-	e        *Eng
-	fn       *ssa.Function
-	name     string
-	c        *Contract
-	out      strings.Builder
-	nsym     int
-	vals     map[ssa.Value]Val
-	addrs    map[ssa.Value]*Addr
-	provs    map[ssa.Value]Prov
-	clos     map[ssa.Value]*ssa.MakeClosure
-	obls     []*Obligation
-	st       *State
-	entry    *State
-	exit     map[*ssa.BasicBlock]*State
-	edgeCond map[[2]int]string
-	params   map[string]Val // entry values of parameters by name
-	cellName map[*ssa.Alloc]string
-	loops    map[*ssa.BasicBlock]*loopInfo
-	loopOrd  []*ssa.BasicBlock
-	kindN    map[string]int
-	failed   error
-	curBlock *ssa.BasicBlock
-	curInstr ssa.Instruction
-	want     func(tags []string) bool
-	assumed  []string
-	selfRef  string
-	callN    map[string]int
-	trustedUsed map[string]bool
-	tuples     map[ssa.Value][]Val
-	tupleAddrs map[ssa.Value][]*Addr
-	arrLens    map[string]int64
-	cellName2  map[*ssa.Alloc]string
-	byteOrigin map[ssa.Value]*Addr
-	smallArr   map[ssa.Value]smallArrInfo
-	noGuard    bool
-	cellClos   map[*ssa.Alloc]*ssa.MakeClosure
-	cellAddr   map[*ssa.Alloc]*Addr
-	cellProv   map[*ssa.Alloc]Prov
-	cellFnKey  map[*ssa.Alloc]string
-	fnKeys     map[ssa.Value]string
-	storeCount map[*ssa.Alloc]int
-	paramVals  map[string]ssa.Value
-	defers     []*ssa.Defer
-	heapCache  map[string]string
-	opaqueInt  bool
+	e              *Eng
+	fn             *ssa.Function
+	name           string
+	c              *Contract
+	out            strings.Builder
+	nsym           int
+	vals           map[ssa.Value]Val
+	addrs          map[ssa.Value]*Addr
+	provs          map[ssa.Value]Prov
+	clos           map[ssa.Value]*ssa.MakeClosure
+	obls           []*Obligation
+	st             *State
+	entry          *State
+	exit           map[*ssa.BasicBlock]*State
+	edgeCond       map[[2]int]string
+	params         map[string]Val // entry values of parameters by name
+	cellName       map[*ssa.Alloc]string
+	loops          map[*ssa.BasicBlock]*loopInfo
+	loopOrd        []*ssa.BasicBlock
+	kindN          map[string]int
+	failed         error
+	curBlock       *ssa.BasicBlock
+	curInstr       ssa.Instruction
+	want           func(tags []string) bool
+	assumed        []string
+	selfRef        string
+	callN          map[string]int
+	trustedUsed    map[string]bool
+	tuples         map[ssa.Value][]Val
+	tupleAddrs     map[ssa.Value][]*Addr
+	arrLens        map[string]int64
+	cellName2      map[*ssa.Alloc]string
+	byteOrigin     map[ssa.Value]*Addr
+	smallArr       map[ssa.Value]smallArrInfo
+	noGuard        bool
+	cellClos       map[*ssa.Alloc]*ssa.MakeClosure
+	cellAddr       map[*ssa.Alloc]*Addr
+	cellProv       map[*ssa.Alloc]Prov
+	cellFnKey      map[*ssa.Alloc]string
+	fnKeys         map[ssa.Value]string
+	storeCount     map[*ssa.Alloc]int
+	paramVals      map[string]ssa.Value
+	defers         []*ssa.Defer
+	heapCache      map[string]string
+	opaqueInt      bool
 	unresolvedNote []string
-	unmodelled map[string]bool
-	relevant   map[string]bool
-	waived        []string
-	theoryEnd     int
-	theoryStart   int
-	lastFreshMods map[string]bool
-	lastFullMods  map[string]bool
-	lastTargets   map[string][]ssa.Value
+	unmodelled     map[string]bool
+	relevant       map[string]bool
+	waived         []string
+	theoryEnd      int
+	segs           []seg // script segments by emitting block (for slicing a query to the blocks that reach it)
+	anc            map[int]map[int]bool
+	theoryStart    int
+	lastFreshMods  map[string]bool
+	lastFullMods   map[string]bool
+	lastTargets    map[string][]ssa.Value
 }
 
 type loopInfo struct {
@@ -249,7 +252,7 @@ func (f *FnEnc) oblige(kind, label string, tags []string, goal string, src strin
 		}
 		return
 	}
-	ob := &Obligation{Func: f.name, Kind: kind, Label: label, Name: name, Tags: tags, Pos: f.out.Len(), At: f.st.at, Goal: goal, Src: src}
+	ob := &Obligation{Func: f.name, Kind: kind, Label: label, Name: name, Tags: tags, Pos: f.out.Len(), Block: f.curBlockIdx(), At: f.st.at, Goal: goal, Src: src}
 	if ob.Src == "" && f.curInstr != nil {
 		p := f.e.fset.Position(f.curInstr.Pos())
 		if p.IsValid() {
@@ -1117,4 +1120,87 @@ func ptrLikeRec(f *FnEnc, s, v, w string) string {
 		return fmt.Sprintf("(=> (isPtrTid (a.tid %s)) (<= (a.val %s) %s))", v, v, w)
 	}
 	return ""
+}
+
+// seg: the script text from pos on was emitted while encoding block blk (-1: before the body).
+type seg struct {
+	pos int
+	blk int
+}
+
+func (f *FnEnc) curBlockIdx() int {
+	if f.curBlock == nil {
+		return -1
+	}
+	return f.curBlock.Index
+}
+
+// ancestors returns the set of blocks from which block b is reachable along forward edges
+// (b included).
+func (f *FnEnc) ancestors(b int) map[int]bool {
+	if f.anc == nil {
+		f.anc = map[int]map[int]bool{}
+	}
+	if a, ok := f.anc[b]; ok {
+		return a
+	}
+	a := map[int]bool{}
+	var walk func(x *ssa.BasicBlock)
+	walk = func(x *ssa.BasicBlock) {
+		if a[x.Index] {
+			return
+		}
+		a[x.Index] = true
+		for _, p := range x.Preds {
+			if !f.isBackEdge(p, x) {
+				walk(p)
+			}
+		}
+	}
+	walk(f.fn.Blocks[b])
+	f.anc[b] = a
+	return a
+}
+
+// slice returns the script text in [from,to) restricted to what was emitted before the body or in
+// blocks that reach block blk. Dropping the text of other blocks only removes assumptions (and
+// definitions nothing kept refers to), so a goal proved from the slice is proved.
+func (f *FnEnc) slice(from, to, blk int, sliced bool) string {
+	full := f.out.String()
+	if !sliced || blk < 0 || len(f.segs) == 0 || f.fn == nil || blk >= len(f.fn.Blocks) {
+		return full[from:to]
+	}
+	anc := f.ancestors(blk)
+	var b strings.Builder
+	emit := func(lo, hi, sb int) {
+		if lo < from {
+			lo = from
+		}
+		if hi > to {
+			hi = to
+		}
+		if lo >= hi {
+			return
+		}
+		if sb < 0 || anc[sb] {
+			b.WriteString(full[lo:hi])
+			return
+		}
+		// a block that does not reach the obligation: keep its declarations and abbreviations
+		// (later text may refer to them, e.g. memoised heap bundles), drop its assertions
+		for _, l := range strings.SplitAfter(full[lo:hi], "\n") {
+			if !strings.HasPrefix(l, "(assert") {
+				b.WriteString(l)
+			}
+		}
+	}
+	emit(0, f.segs[0].pos, -1)
+	for i, sg := range f.segs {
+		hi := len(full)
+		if i+1 < len(f.segs) {
+			hi = f.segs[i+1].pos
+		}
+		emit(sg.pos, hi, sg.blk)
+	}
+	return b.String()
 }
